@@ -163,10 +163,10 @@ func runC03Crash(run *Run, seed int64, sc faultScn, rng *rand.Rand) (out []*c01R
 				continue
 			}
 			if e.s.Live() {
-				for _, nm := range e.s.Node.MemberNames() {
-					if nm == e.name {
-						fail("relisted-on-old-news", "%s had removed crashed %s (dead at incarnation %d); a delayed copy of the alive claim at that incarnation from the same address made it list the member again (reclaim time %v, stage %d)", e.s.Name, e.name, e.inc, sc.Reclaim, e.stage)
-					}
+				// (a survivor that lagged behind may meanwhile have passed on a NEWER alive claim of the crashed
+				// member - it had refuted a false suspicion before it crashed -: that is new knowledge, not old news)
+				if r := e.s.Node.Record(e.name); r != nil && r.State != memberlist.StateDead && r.State != memberlist.StateLeft && r.Incarnation <= e.inc {
+					fail("relisted-on-old-news", "%s had removed crashed %s (dead at incarnation %d); a delayed copy of the alive claim at that incarnation from the same address made it list the member again as %s (reclaim time %v, stage %d)", e.s.Name, e.name, e.inc, recString(r), sc.Reclaim, e.stage)
 				}
 			}
 		}
